@@ -790,7 +790,13 @@ class Backend(ABC):
             )
             for index, query in enumerate(queries)
         ]
-        rule.set_conversion_result(finalized_queries)
+        # A correlation rule that is referred to by another correlation rule is embedded there like any
+        # other rule: unfinalized, unless the backend opts into finalization of subqueries.
+        rule.set_conversion_result(
+            finalized_queries
+            if self.finalize_correlation_subqueries or not rule._backreferences
+            else queries
+        )
         rule.set_conversion_states(states)
 
         if rule._output:
